@@ -122,6 +122,11 @@ fn edits() -> Vec<Edit> {
             // what gc removed from the base module is not this battery's business (C06 / C07): take the inventory from here on
             *c = counts(&m.emit_wasm())?;
             Ok(()) }),
+        ("give every type the module hands out a name", |m, _c| {
+            // (ModuleTypes::iter also yields the internal function-entry types, which are never emitted: F22)
+            let ids: Vec<walrus::TypeId> = m.types.iter().map(|t| t.id()).collect();
+            for (i, id) in ids.iter().enumerate() { m.types.get_mut(*id).name = Some(format!("type{i}")); }
+            Ok(()) }),
         ("delete an export", |m, c| { let first = m.exports.iter().next().map(|e| e.id()); if let Some(e) = first { m.exports.delete(e); c.exports -= 1; } Ok(()) }),
     ]
 }
@@ -167,7 +172,43 @@ pub fn edits_battery(args: &[String]) -> Result<JValue> {
             }
         }
     }
+    // F23 (open finding): the id of an internal function-entry type, obtained through the public API, used where a type index is emitted
+    for (bname, wat) in BASES {
+        if *bname == "empty" { continue; }
+        let wasm = wat::parse_str(wat)?;
+        for case in ["wrap a body in a block of the body's own sequence type", "import a function with a signature found by iterating over the types"] {
+            checked += 1;
+            let w2 = wasm.clone();
+            let r = std::panic::catch_unwind(move || -> Result<()> {
+                let mut config = ModuleConfig::new();
+                config.generate_producers_section(false);
+                let mut m = config.parse(&w2)?;
+                if case.starts_with("wrap") {
+                    let fid = m.funcs.iter_local().map(|(id, _)| id).next().ok_or_else(|| anyhow!("no local function"))?;
+                    let f = m.funcs.get_mut(fid).kind.unwrap_local_mut();
+                    let entry = f.entry_block();
+                    let body_ty = f.block(entry).ty;
+                    let old = std::mem::take(&mut f.block_mut(entry).instrs);
+                    let b = f.builder_mut();
+                    let mut inner = b.dangling_instr_seq(body_ty);
+                    *inner.instrs_mut() = old;
+                    let inner = inner.id();
+                    b.func_body().instr(walrus::ir::Block { seq: inner });
+                } else {
+                    // the LAST type without parameters: the entry type of the last function
+                    let picked = m.types.iter().filter(|t| t.params().is_empty()).last().map(|t| t.id()).ok_or_else(|| anyhow!("no type without parameters"))?;
+                    m.add_import_func("env", "picked_signature", picked);
+                }
+                let out = m.emit_wasm();
+                validate(&out)
+            });
+            let what = match r { Ok(Ok(())) => continue, Ok(Err(e)) => format!("error: {e:#}"), Err(_) => "panic while emitting".to_string() };
+            failures.push(json!({"base": bname, "edits": [case], "what": what, "finding_key": "C02:function-entry-type-id-used-where-a-type-index-is-emitted"}));
+        }
+    }
     let n = failures.len();
+    // (failures that are not a recorded finding first: the list is cut)
+    failures.sort_by_key(|f| f.get("finding_key").is_some());
     failures.truncate(8);
     Ok(json!({"violated": n > 0, "cases_checked": checked, "n_failures": n, "failures": failures}))
 }
